@@ -861,6 +861,10 @@ def run_C02(rep, tier, rng):
         idx = {t: i for i, t in enumerate(G["terminals"])}
         for si, s in enumerate(r["strings"]):
             kind, detail, pulls = _impl_res(r, si)
+            if kind in ("panic", "missing") and oracle.recognize(G, s):
+                rep.violation("no derivation tree is returned for a sentence: the emitted parse " + ("panicked" if kind == "panic" else "did not return"),
+                              {"label": r["label"], "source": r["text"], "tokens": s})
+                continue
             if kind != "ok":
                 continue
             ev += 1
